@@ -341,9 +341,13 @@ def make_copy():
     return d
 
 
-def run_check(prop, repo, tier='quick', extra=()):
+def run_check(prop, repo, tier='quick', extra=(), workers=None, replays=None):
     env = dict(os.environ)
     env.pop('VERIF_INNER', None)
+    if workers:
+        env['VERIF_WORKERS'] = str(workers)
+    if replays:
+        env['VERIF_REPLAYS'] = replays
     cmd = [os.path.join(VERIF, 'bin/check'), prop, '--repo', repo, '--tier', tier, '--no-evidence'] + list(extra)
     t0 = time.time()
     r = subprocess.run(cmd, env=env, stdout=subprocess.PIPE, stderr=subprocess.STDOUT, text=True, cwd=VERIF)
@@ -393,6 +397,7 @@ def main():
     ap.add_argument('--tier', default='quick')
     ap.add_argument('--show', action='store_true')
     ap.add_argument('--no-replay-check', action='store_true')
+    ap.add_argument('--jobs', type=int, default=3, help='mutants checked concurrently (each with 16/jobs workers)')
     args = ap.parse_args()
     todo = list(MUTANTS)
     if args.seeded:
@@ -404,54 +409,67 @@ def main():
         todo = [m for m in todo if m['prop'] == args.prop]
     missed = 0
     replays_checked, replays_bad = [0], [0]
-    for m in todo:
+    import threading
+    from concurrent.futures import ThreadPoolExecutor
+    lock = threading.Lock()
+    jobs = max(1, args.jobs)
+    workers = max(2, 16 // jobs)
+
+    def one(m):
+        lines = []
+        bad_here = 0
         d = make_copy()
+        rdir = tempfile.mkdtemp(prefix='atomman-verif-replays.')
         try:
             if 'patch' in m:
                 r = subprocess.run(['patch', '-p1', '-s', '-i', m['patch']], cwd=d, stdout=subprocess.PIPE,
                                    stderr=subprocess.STDOUT, text=True)
                 if r.returncode != 0:
-                    print('%-14s %s PATCH-FAILED %s' % (m['id'], m['prop'], r.stdout.strip()[:200]))
-                    missed += 1
-                    continue
+                    return ['%-14s %s PATCH-FAILED %s' % (m['id'], m['prop'], r.stdout.strip()[:200])], 1, 0, 0
             else:
                 apply_edit(d, m)
-            rc, out, wall = run_check(m['prop'], d, args.tier)
+            rc, out, wall = run_check(m['prop'], d, args.tier, workers=workers, replays=rdir)
             clauses = sorted({ln.split('clause=')[1].split()[0] for ln in out.splitlines() if 'clause=' in ln})
             verdict = {1: 'DETECTED', 0: 'MISSED', 2: 'HARNESS-ERROR'}.get(rc, 'rc=%d' % rc)
+            nrep = nbad = 0
             if rc == 1 and not args.no_replay_check:
                 # every reported violation must replay, minimised, in a fresh process: same clause, same digest
                 paths = [ln.split('replay=')[1].strip() for ln in out.splitlines() if ln.startswith('VIOLATION ') and 'replay=' in ln]
-                bad = 0
                 for rp in paths[:3]:
                     env = dict(os.environ)
                     env.pop('VERIF_INNER', None)
+                    env['VERIF_WORKERS'] = str(workers)
                     r2 = subprocess.run([os.path.join(VERIF, 'bin/check'), m['prop'], '--repo', d, '--replay', rp], env=env,
                                         stdout=subprocess.PIPE, stderr=subprocess.STDOUT, text=True, cwd=VERIF)
                     if r2.returncode != 1 or 'same_as_recorded=True digest_match=True' not in r2.stdout:
-                        bad += 1
-                    try:
-                        os.remove(rp)
-                    except OSError:
-                        pass
-                verdict += '' if not bad else '+REPLAY-MISMATCH(%d)' % bad
-                replays_checked[0] += len(paths[:3])
-                replays_bad[0] += bad
+                        nbad += 1
+                nrep = len(paths[:3])
+                verdict += '' if not nbad else '+REPLAY-MISMATCH(%d)' % nbad
             tests = ''
             if args.with_tests:
                 tests = ' | tests: ' + run_tests(d)
-            print('%-14s %s %-13s %5.1fs %s  # %s%s' % (m['id'], m['prop'], verdict, wall, ','.join(clauses), m['note'], tests))
+            lines.append('%-14s %s %-13s %5.1fs %s  # %s%s' % (m['id'], m['prop'], verdict, wall, ','.join(clauses), m['note'], tests))
             want_rc = 0 if m.get('expect') == 'clean' else 1
             if rc != want_rc:
-                missed += 1
-                print('   ^^^ UNEXPECTED: wanted rc=%d' % want_rc)
+                bad_here = 1
+                lines.append('   ^^^ UNEXPECTED: wanted rc=%d' % want_rc)
                 if args.show or rc == 2 or want_rc == 0:
-                    print(out[-1500:])
+                    lines.append(out[-1500:])
             elif args.show:
-                print(out[-1200:])
+                lines.append(out[-1200:])
+            return lines, bad_here, nrep, nbad
         finally:
             shutil.rmtree(d, ignore_errors=True)
-        sys.stdout.flush()
+            shutil.rmtree(rdir, ignore_errors=True)
+
+    with ThreadPoolExecutor(max_workers=jobs) as ex:
+        for lines, bad_here, nrep, nbad in ex.map(one, todo):
+            for ln in lines:
+                print(ln)
+            missed += bad_here
+            replays_checked[0] += nrep
+            replays_bad[0] += nbad
+            sys.stdout.flush()
     print('%d mutants, %d with an unexpected verdict; %d replay files re-executed in fresh processes, %d mismatches'
           % (len(todo), missed, replays_checked[0], replays_bad[0]))
     if replays_bad[0]:
